@@ -145,7 +145,9 @@ def run_row_arith(chk, spec):
 	chk.judged("arith-value", ("row-arith", spec["expr"], spec["touch"], n, len(cols)))
 	exprs = {"a*2": (lambda: a * 2, lambda: [x * 2 for x in rows[i]]), "1000-a": (lambda: 1000 - a, lambda: [1000 - x for x in rows[i]]), "-a": (lambda: -a, lambda: [-x for x in rows[i]]),
 		"a+b": (lambda: a + b, lambda: [x + y for x, y in zip(rows[i], rows[k])]), "a+list": (lambda: a + [1] * len(cols), lambda: [x + 1 for x in rows[i]]),
-		"b-a": (lambda: b - a, lambda: [y - x for x, y in zip(rows[i], rows[k])])}
+		"b-a": (lambda: b - a, lambda: [y - x for x, y in zip(rows[i], rows[k])]),
+		# one row as both operands (the library copies an operand that is the vector itself)
+		"a-a": (lambda: a - a, lambda: [x - x for x in rows[i]]), "a*a": (lambda: a * a, lambda: [x * x for x in rows[i]])}
 	if spec["expr"] in ("a+b", "b-a") and b is None:
 		chk.skip("row-arith-needs-two-rows")
 		return
@@ -158,6 +160,35 @@ def run_row_arith(chk, spec):
 	got = list(o.value) if isinstance(o.value, Vector) else None
 	if got is None or M.first_diff(got, exp):
 		chk.fail("element i is exactly what Python computes for the i-th operands in written order", f"arith/element-mismatch/row/{spec['expr']}", f"{spec!r}: a = t[{i}] = {rows[i]!r}" + (f", b = t[{k}] = {rows[k]!r}" if b is not None else "") + f": {spec['expr']} gives {got!r}, python {exp!r}")
+
+def run_symbolic(chk, spec):
+	"""operands that record the order in which Python combined them (values.Sym): element i of every operator, in every operand form,
+	is the operation applied to the i-th operands in the WRITTEN order - also where the operator happens to be commutative for numbers"""
+	from ..values import Sym
+	n, form, opname = spec["n"], spec["form"], spec["opname"]
+	op = BIN_OPS[opname]
+	xs = [Sym(f"x{i}") for i in range(n)]
+	ys = [Sym(f"y{i}") if spec["other"] == "sym" else (i + 2) for i in range(n)]
+	k = Sym("k") if spec["other"] == "sym" else 3
+	v = Vector(list(xs))
+	forms = {
+		"vv": (lambda: op(v, Vector(list(ys))), lambda: [op(a, b) for a, b in zip(xs, ys)]),
+		"vs": (lambda: op(v, k), lambda: [op(a, k) for a in xs]),
+		"sv": (lambda: op(k, v), lambda: [op(k, a) for a in xs]),
+		"vl": (lambda: op(v, list(ys)), lambda: [op(a, b) for a, b in zip(xs, ys)]),
+		"lv": (lambda: op(list(ys), v), lambda: [op(b, a) for a, b in zip(xs, ys)]),
+		"tv": (lambda: op(tuple(ys), v), lambda: [op(b, a) for a, b in zip(xs, ys)]),
+	}
+	f, m = forms[form]
+	o = call(f)
+	exp = m()
+	chk.judged("arith-value", ("symbolic", opname, form, spec["other"], n))
+	if not o.ok:
+		chk.fail("serif computes what Python defines", f"arith/raises-where-python-defines/symbolic/{opname}/{form}/{type(o.exc).__name__}", f"{spec!r}: {o!r}; python {exp!r}")
+		return
+	got = list(o.value._underlying) if isinstance(o.value, Vector) else None
+	if got != exp:
+		chk.fail("element i is exactly what Python computes for the i-th operands in written order", f"arith/operand-order/{opname}/{form}", f"{spec!r}: serif {got!r}, python {exp!r}")
 
 
 def run_table_arith(chk, spec):
@@ -363,7 +394,7 @@ def run_helper(chk, spec):
 			f"Vector({short(vals, 120)}).{name}({sep!r}): serif {short(got, 160)} vs documented {short(exp, 160)}: {d}")
 
 
-RUNNERS = {"identity": run_identity, "row_arith": run_row_arith, "helper": run_helper, "arith": run_arith, "table_arith": run_table_arith, "method": run_method, "date_days": run_date_days, "recompute": recompute.runner("C05")}
+RUNNERS = {"symbolic": run_symbolic, "identity": run_identity, "row_arith": run_row_arith, "helper": run_helper, "arith": run_arith, "table_arith": run_table_arith, "method": run_method, "date_days": run_date_days, "recompute": recompute.runner("C05")}
 
 PAIRS = [("int", "int"), ("int", "float"), ("float", "int"), ("bool", "int"), ("int", "complex"), ("float", "float"), ("str", "str"),
 	("str", "int"), ("date", "timedelta"), ("datetime", "timedelta"), ("timedelta", "timedelta"), ("timedelta", "int"), ("list", "list"),
@@ -374,6 +405,10 @@ def product_specs(chk):
 	rng = chk.rng
 	idx = 0
 	for opname in BIN_OPS:
+		for form in ("vv", "vs", "sv", "vl", "lv", "tv"):
+			for other in ("sym", "number"):
+				for n in (1, 3):
+					chk.case("symbolic", {"opname": opname, "form": form, "other": other, "n": n}, "arith-value")
 		for form in ("vv", "vs", "sv", "vl", "lv"):
 			for ka, kb in PAIRS:
 				for n in (0, 1, 2, 5):
@@ -452,7 +487,7 @@ def run(chk):
 		cols = [[rng.choice(ARITH_VALUES[k]) for _ in range(n)] for k in kinds]
 		i = rng.randrange(n)
 		k = (i + rng.randrange(1, n)) % n
-		chk.case("row_arith", {"cols": cols, "i": i, "k": k, "expr": rng.choice(["a*2", "1000-a", "-a", "a+b", "a+list", "b-a"]), "touch": rng.choice(["other-row", "other-row", "shape", "nothing"])}, "row-arith")
+		chk.case("row_arith", {"cols": cols, "i": i, "k": k, "expr": rng.choice(["a*2", "1000-a", "-a", "a+b", "a+list", "b-a", "a-a", "a*a"]), "touch": rng.choice(["other-row", "other-row", "shape", "nothing"])}, "row-arith")
 	# table arithmetic
 	ntab = 300 if chk.quick() else 1500
 	for _ in range(ntab):
